@@ -205,6 +205,8 @@ def run(ctx) -> None:
     RT = ctx.rule("C12/fd-typestate", "under every interleaving of the closer(s) with the reader loop: no descriptor is used or closed after it was closed, none is closed twice, none is left open once close was requested and all threads ended, and no thread is blocked forever", floor=3)
     RC = ctx.rule("C12/ctor-exception-safety", "every fallible call of Inotify.__init__ after the first acquisition lies in a region whose exceptional exit closes every descriptor acquired so far", floor=3)
     RH = ctx.rule("C12/close-chain", "emitter stop reaches the buffer's close; that reaches Inotify.close, the queue's close and join of the reader; _close_resources closes exactly the descriptors the constructor created; a failed emitter start reaches emitter.stop()", floor=5)
+    RONE = ctx.rule("C12/one-emitter-per-watch", "an emitter is constructed only after a failed membership test of the watch in the emitter map, under the lock (instance shared with C13): a second emitter for an equal watch replaces the first in the map, and unschedule() releases only the one it finds there -- the other keeps its descriptors and threads until stop()", floor=1)
+    ctx.borrow("c13", "C13/one-emitter-per-watch", RONE)
     RO = ctx.rule("C12/fd-ownership", "the descriptor fields are touched only inside Inotify's own methods", floor=1)
 
     fds, init = descriptor_fields(P)
